@@ -321,6 +321,12 @@ class World:
         if self.t.get("tdms") is not None and not self.tdms_done and r.random() < 0.35:
             self.tdms_done = True
             return {"k": "tdms", "fx": self.t["tdms"], "skip_i": r.random() < 0.7, "skip_f": r.random() < 0.7}
+        shadow = [i for i, f in enumerate(self.files) if f.get("shadow")]
+        if shadow and r.random() < 0.4:
+            # a file whose internal basin holds a feature that could also be computed: condense it, mostly without
+            # basin features and with ancillary ones (the computed values must not replace the stored ones)
+            return {"k": "tool", "src": r.choice(shadow), "tool": "condense", "again": False,
+                    "opts": {"store_ancillary_features": r.random() < 0.8, "store_basin_features": r.random() < 0.3}}
         tool = r.choice(["compress", "compress", "repack", "repack", "condense"])
         op = {"k": "tool", "src": r.randrange(1 << 16), "tool": tool, "opts": {}, "again": False}
         if tool == "repack":
@@ -601,7 +607,10 @@ class World:
         return targets
 
     def add_file(self, name, kind, basin, vclass, tools=()):
-        self.files.append({"name": name, "kind": kind, "basin": basin, "vclass": vclass, "tools": list(tools)})
+        import h5py
+        with h5py.File(self.dir / name, "r") as h:
+            shadow = "basin_events" in h and "ml_class" in h["basin_events"] and "ml_class" not in h.get("events", {})
+        self.files.append({"name": name, "kind": kind, "basin": basin, "vclass": vclass, "tools": list(tools), "shadow": bool(shadow)})
 
     # ---------------- file facts (raw) ----------------
     def facts(self, name):
